@@ -112,6 +112,28 @@ func LinearChain(head uint64) []Step {
 	return out
 }
 
+// LinearChainWithout is LinearChain on a chain that skips some block numbers (a block whose number is its parent's
+// plus two or more, as on chains numbered by slots); the first block and the head are never skipped.
+func LinearChainWithout(head uint64, skipped []uint64) []Step {
+	skip := map[uint64]bool{}
+	for _, n := range skipped {
+		if n > bstream.GetProtocolFirstStreamableBlock && n < head {
+			skip[n] = true
+		}
+	}
+	var out []Step
+	parent := ""
+	for n := bstream.GetProtocolFirstStreamableBlock; n <= head; n++ {
+		if skip[n] {
+			continue
+		}
+		id := BlockID(n)
+		out = append(out, Step{Num: n, ID: id, Parent: parent, Step: bstream.StepNewIrreversible, LIBNum: n, LIBID: id})
+		parent = id
+	}
+	return out
+}
+
 func BlockID(n uint64) string { return fmt.Sprintf("b%d", n) }
 
 type obj struct {
